@@ -247,20 +247,33 @@ def oracle(sc):
     for trip in range(sc["trips"]):
         p = tmp(f"o{trip}.h5")
         cur.save(p)
-        l = core.impl(lambda: GMMMachine.from_hdf5(p, ubm=ubm))
-        if isinstance(l, core.ImplError):
-            return {"sig": "load-raises", "what": repr(l)}
-        a, b = fields(g), fields(l)
-        for k in ("w", "m", "v", "thr"):
-            if np.shape(a[k]) != np.shape(b[k]) or core.enc(a[k]) != core.enc(b[k]):
-                return {"sig": f"field-not-bit-identical:{k}", "what": f"round trip {trip + 1}: saved {np.asarray(a[k]).tolist()} loaded {np.asarray(b[k]).tolist()}"}
-        for k in ("trainer", "conv", "steps", "um", "uv", "uw", "has_ubm"):
-            if a[k] != b[k]:
-                return {"sig": f"setting-not-preserved:{k}", "what": f"round trip {trip + 1}: saved {a[k]!r} loaded {b[k]!r}"}
-        if not (g == l):
-            return {"sig": "not-equal-under-package-equality", "what": ""}
-        if core.enc(g.log_likelihood(x)) != core.enc(l.log_likelihood(x)):
-            return {"sig": "scores-differ-after-load", "what": ""}
+        def into_used():
+            # the other way to read a file: load() into an existing machine that holds other parameters and has been used
+            import copy
+
+            other = copy.deepcopy(g)
+            other.weights = np.asarray(other.weights)[::-1].copy()
+            other.means = np.asarray(other.means) * 1.5 + 0.25
+            other.variances = np.asarray(other.variances) * 2.0
+            other.log_likelihood(x)
+            other.load(p)
+            return other
+
+        for route, reader in (("from_hdf5", lambda: GMMMachine.from_hdf5(p, ubm=ubm)), ("load() into a used machine", into_used)):
+            l = core.impl(reader)
+            if isinstance(l, core.ImplError):
+                return {"sig": "load-raises", "what": f"{route}: {l!r}"}
+            a, b = fields(g), fields(l)
+            for k in ("w", "m", "v", "thr"):
+                if np.shape(a[k]) != np.shape(b[k]) or core.enc(a[k]) != core.enc(b[k]):
+                    return {"sig": f"field-not-bit-identical:{k}", "what": f"{route}, round trip {trip + 1}: saved {np.asarray(a[k]).tolist()} loaded {np.asarray(b[k]).tolist()}"}
+            for k in ("trainer", "conv", "steps", "um", "uv", "uw", "has_ubm"):
+                if a[k] != b[k]:
+                    return {"sig": f"setting-not-preserved:{k}", "what": f"{route}, round trip {trip + 1}: saved {a[k]!r} loaded {b[k]!r}"}
+            if not (g == l):
+                return {"sig": "not-equal-under-package-equality", "what": route}
+            if core.enc(g.log_likelihood(x)) != core.enc(l.log_likelihood(x)):
+                return {"sig": "scores-differ-after-load", "what": f"{route}: log-likelihoods of the same samples {np.asarray(l.log_likelihood(x)).tolist()} vs the saved machine's {np.asarray(g.log_likelihood(x)).tolist()}"}
         cur = l
     # continued training gives what training the original would have given
     if sc["steps"] is not None and sc["steps"] > 0:
